@@ -117,6 +117,7 @@ class Facts:
         # renamed private functions get their reviewed names back; new helper functions are transparent (see inline.py)
         import inline
         self.renamed = inline.apply_renames(self)
+        self.reordered = inline.apply_param_order(self)
         self.inlined = inline.apply(self)
         if self.inlined is not None and self.inlined.new:
             inline.apply_mir(self, self.inlined)
